@@ -20,8 +20,9 @@
 (*      attrs : record; every attribute is a sequence, <<>> = not set,        *)
 (*              <<v>> = set to v (v an integer, string, sequence of integers  *)
 (*              or tensor record); float attributes carry integer values;     *)
-(*      ins   : sequence of records [p, shape, dtype, data]; p = FALSE marks  *)
-(*              an omitted optional input;                                    *)
+(*      ins   : sequence of records [p, shape, dtype, data, den]; p = FALSE     *)
+(*              marks an omitted optional input; den (normally 1) is a common *)
+(*              denominator of `data` (only Resize `scales` uses den > 1);    *)
 (*    result [st |-> "ok", outs |-> <<tensors>>] or st = "undefined" (ONNX     *)
 (*    does not define the case / not exact) or st = "unmodelled" (operator or *)
 (*    attribute outside this module).  Only st = "ok" is ever judged.         *)
@@ -573,6 +574,301 @@ OnnxDepthToSpace(x, b, mode) ==
   IN FromFn(<<x.shape[1], c2, x.shape[3] * b, x.shape[4] * b>>, x.dtype, F)
 
 ---------------------------------------------------------------------------
+(* Matrix products.                                                         *)
+\* MatMul(A, B): numpy.matmul - 1-D operands are promoted ([K] -> [1,K] /
+\* [K,1]) and the added dimension removed again; leading (batch) dimensions
+\* broadcast.
+MMPromA(a) == IF Rank(a) = 1 THEN WithShape(a, <<1, a.shape[1]>>) ELSE a
+MMPromB(b) == IF Rank(b) = 1 THEN WithShape(b, <<b.shape[1], 1>>) ELSE b
+DefMatMul(a, b) ==
+  /\ Rank(a) >= 1 /\ Rank(b) >= 1
+  /\ LET pa == MMPromA(a) pb == MMPromB(b) IN
+     /\ pa.shape[Rank(pa)] = pb.shape[Rank(pb) - 1]
+     /\ Broadcastable(Take(pa.shape, Rank(pa) - 2), Take(pb.shape, Rank(pb) - 2))
+\* Batched product of already promoted operands; element function given so that
+\* MatMulInteger can subtract zero points.
+BatchedMatMul(pa, pb, dtype, EA(_, _), EB(_, _)) ==
+  LET ra == Rank(pa) rb == Rank(pb)
+      ba == Take(pa.shape, ra - 2) bb == Take(pb.shape, rb - 2)
+      bs == BroadcastShape(ba, bb) nb == Len(bs)
+      kk == pa.shape[ra]
+      F(idx) == LET bt == Take(idx, nb) i == idx[nb + 1] j == idx[nb + 2]
+                    ia == BIdx(bt, ba) ib == BIdx(bt, bb)
+                    G(acc, k) == acc + EA(ia \o <<i, k>>, i) * EB(ib \o <<k, j>>, j)
+                IN FoldN(G, kk, 0)
+  IN FromFn(bs \o <<pa.shape[ra - 1], pb.shape[rb]>>, dtype, F)
+MatMulSqueeze(a, b, t) ==
+  LET s1 == IF Rank(b) = 1 THEN Take(t.shape, Rank(t) - 1) ELSE t.shape
+      s2 == IF Rank(a) = 1 THEN RemoveAt(s1, Len(s1) - (IF Rank(b) = 1 THEN 0 ELSE 1)) ELSE s1
+  IN WithShape(t, s2)
+OnnxMatMul(a, b) ==
+  LET pa == MMPromA(a) pb == MMPromB(b)
+  IN MatMulSqueeze(a, b, BatchedMatMul(pa, pb, a.dtype, LAMBDA ix, i : At(pa, ix), LAMBDA ix, j : At(pb, ix)))
+
+\* Gemm(A, B, C?, alpha, beta, transA, transB) with integer alpha / beta;
+\* C is unidirectionally broadcast to (M, N).
+GemmA(a, ta) == IF ta THEN <<a.shape[2], a.shape[1]>> ELSE a.shape
+DefGemm(a, b, c, ta, tb) ==
+  /\ Rank(a) = 2 /\ Rank(b) = 2 /\ a.dtype = b.dtype
+  /\ GemmA(a, ta)[2] = GemmA(b, tb)[1]
+  /\ IsT(c) => (c.dtype = a.dtype /\ BroadcastableTo(c.shape, <<GemmA(a, ta)[1], GemmA(b, tb)[2]>>))
+OnnxGemm(a, b, c, alpha, beta, ta, tb) ==
+  LET m == GemmA(a, ta)[1] n == GemmA(b, tb)[2] kk == GemmA(a, ta)[2]
+      F(idx) == LET G(acc, k) == acc + At(a, IF ta THEN <<k, idx[1]>> ELSE <<idx[1], k>>)
+                                     * At(b, IF tb THEN <<idx[2], k>> ELSE <<k, idx[2]>>)
+                IN alpha * FoldN(G, kk, 0) + (IF IsT(c) THEN beta * BAt(c, idx) ELSE 0)
+  IN FromFn(<<m, n>>, a.dtype, F)
+
+\* MatMulInteger(A, B, a_zero_point?, b_zero_point?) -> int32.  Zero points:
+\* scalar / one element (per tensor), or for 2-D inputs a vector per row of A /
+\* per column of B.
+IsQ(t) == t.dtype \in {"u8", "i8"}
+DefZeroPoint(zp, t, n) ==
+  IsT(zp) => (zp.dtype = t.dtype /\ (NumEl(zp) = 1 \/ (Rank(t) = 2 /\ zp.shape = <<n>>)))
+ZP(zp, i) == IF ~IsT(zp) THEN 0 ELSE IF NumEl(zp) = 1 THEN zp.data[1] ELSE zp.data[i + 1]
+DefMatMulInteger(a, b, az, bz) ==
+  /\ IsQ(a) /\ IsQ(b) /\ DefMatMul(a, b)
+  /\ DefZeroPoint(az, a, MMPromA(a).shape[Rank(MMPromA(a)) - 1])
+  /\ DefZeroPoint(bz, b, MMPromB(b).shape[Rank(MMPromB(b))])
+OnnxMatMulInteger(a, b, az, bz) ==
+  LET pa == MMPromA(a) pb == MMPromB(b)
+  IN MatMulSqueeze(a, b, BatchedMatMul(pa, pb, "i32", LAMBDA ix, i : At(pa, ix) - ZP(az, i), LAMBDA ix, j : At(pb, ix) - ZP(bz, j)))
+
+---------------------------------------------------------------------------
+(* Convolution and pooling on [N, C, spatial...] tensors.                   *)
+\* Effective begin/end padding for each spatial axis.
+ConvPads(auto, ins, ks, strides, dil, pads) ==
+  LET n == Len(ins)
+      Tot(i) == LET out == CeilDiv(ins[i], strides[i])
+                IN MaxI((out - 1) * strides[i] + ((ks[i] - 1) * dil[i] + 1) - ins[i], 0)
+  IN CASE auto = "NOTSET" -> [b |-> Take(pads, n), e |-> Drop(pads, n)]
+       [] auto = "VALID" -> [b |-> [i \in 1..n |-> 0], e |-> [i \in 1..n |-> 0]]
+       [] auto = "SAME_UPPER" -> [b |-> [i \in 1..n |-> Tot(i) \div 2], e |-> [i \in 1..n |-> Tot(i) - Tot(i) \div 2]]
+       [] auto = "SAME_LOWER" -> [b |-> [i \in 1..n |-> Tot(i) - Tot(i) \div 2], e |-> [i \in 1..n |-> Tot(i) \div 2]]
+ConvOutDims(ins, ks, strides, dil, pd, ceil) ==
+  [i \in 1..Len(ins) |->
+     LET num == ins[i] + pd.b[i] + pd.e[i] - ((ks[i] - 1) * dil[i] + 1)
+     IN (IF ceil THEN CeilDiv(num, strides[i]) ELSE FloorDiv(num, strides[i])) + 1]
+DefWindow(ins, ks, strides, dil, pads, auto) ==
+  LET n == Len(ins) IN
+  /\ auto \in {"NOTSET", "VALID", "SAME_UPPER", "SAME_LOWER"}
+  /\ Len(ks) = n /\ Len(strides) = n /\ Len(dil) = n /\ Len(pads) = 2 * n
+  /\ \A i \in 1..n : ks[i] >= 1 /\ strides[i] >= 1 /\ dil[i] >= 1 /\ ins[i] >= 1
+  /\ \A i \in 1..(2 * n) : pads[i] >= 0
+  /\ auto # "NOTSET" => \A i \in 1..(2 * n) : pads[i] = 0
+  \* the (dilated) kernel fits into the padded input at least once
+  /\ LET pd == ConvPads(auto, ins, ks, strides, dil, pads) IN
+     \A i \in 1..n : ins[i] + pd.b[i] + pd.e[i] >= (ks[i] - 1) * dil[i] + 1
+\* Input position of kernel offset kk for output position o (may be outside).
+WinPos(o, kk, strides, dil, pb) == [i \in 1..Len(o) |-> o[i] * strides[i] - pb[i] + kk[i] * dil[i]]
+InBounds(pos, ins) == \A i \in 1..Len(pos) : pos[i] >= 0 /\ pos[i] < ins[i]
+
+\* Conv(X, W, B?) with group; ConvInteger subtracts zero points (XV/WV).
+DefConv(x, w, bias, ks_attr, strides, dil, group, pads, auto) ==
+  /\ Rank(x) >= 3 /\ Rank(w) = Rank(x) /\ group >= 1
+  /\ x.shape[2] = w.shape[2] * group /\ w.shape[1] % group = 0
+  /\ (ks_attr # <<>> => ks_attr = Drop(w.shape, 2))
+  /\ IsT(bias) => bias.shape = <<w.shape[1]>>
+  /\ DefWindow(Drop(x.shape, 2), Drop(w.shape, 2), strides, dil, pads, auto)
+ConvGeneric(x, w, dtype, strides, dil, group, pads, auto, XV(_), WV(_, _), BV(_)) ==
+  LET ins == Drop(x.shape, 2) ks == Drop(w.shape, 2)
+      pd == ConvPads(auto, ins, ks, strides, dil, pads)
+      pb == TLCEval(pd.b)
+      cg == w.shape[2] mg == w.shape[1] \div group
+      kdims == <<cg>> \o ks
+      F(idx) ==
+        LET m == idx[2] g == m \div mg o == Drop(idx, 2)
+            G(acc, j) == LET ck == Unravel(j, kdims) c == ck[1] kk == Drop(ck, 1)
+                             pos == WinPos(o, kk, strides, dil, pb)
+                         IN IF InBounds(pos, ins)
+                            THEN acc + XV(At(x, <<idx[1], g * cg + c>> \o pos)) * WV(At(w, <<m, c>> \o kk), m)
+                            ELSE acc
+        IN FoldN(G, Prod(kdims), BV(m))
+  IN FromFn(<<x.shape[1], w.shape[1]>> \o ConvOutDims(ins, ks, strides, dil, pd, FALSE), dtype, F)
+OnnxConv(x, w, bias, strides, dil, group, pads, auto) ==
+  ConvGeneric(x, w, x.dtype, strides, dil, group, pads, auto,
+              LAMBDA v : v, LAMBDA v, m : v, LAMBDA m : IF IsT(bias) THEN bias.data[m + 1] ELSE 0)
+\* ConvInteger(x, w, x_zero_point?, w_zero_point?) -> int32; padding contributes
+\* (x_zero_point - x_zero_point) = 0.
+DefConvInteger(x, w, xz, wz, ks_attr, strides, dil, group, pads, auto) ==
+  /\ IsQ(x) /\ IsQ(w) /\ DefConv(x, w, NoT, ks_attr, strides, dil, group, pads, auto)
+  /\ IsT(xz) => (xz.dtype = x.dtype /\ NumEl(xz) = 1)
+  /\ IsT(wz) => (wz.dtype = w.dtype /\ (NumEl(wz) = 1 \/ wz.shape = <<w.shape[1]>>))
+OnnxConvInteger(x, w, xz, wz, strides, dil, group, pads, auto) ==
+  ConvGeneric(x, w, "i32", strides, dil, group, pads, auto,
+              LAMBDA v : v - ZP(xz, 0), LAMBDA v, m : v - ZP(wz, m), LAMBDA m : 0)
+
+\* ConvTranspose(X, W[C, M/group, k..], B?), explicit pads and output_padding.
+\* (auto_pad SAME_* and output_shape are not modelled.)
+DefConvTranspose(x, w, bias, ks_attr, strides, dil, group, pads, opad) ==
+  LET n == Rank(x) - 2 ins == Drop(x.shape, 2) ks == Drop(w.shape, 2) IN
+  /\ Rank(x) >= 3 /\ Rank(w) = Rank(x) /\ group >= 1
+  /\ x.shape[2] = w.shape[1] /\ x.shape[2] % group = 0
+  /\ (ks_attr # <<>> => ks_attr = ks)
+  /\ IsT(bias) => bias.shape = <<w.shape[2] * group>>
+  /\ Len(strides) = n /\ Len(dil) = n /\ Len(pads) = 2 * n /\ Len(opad) = n
+  /\ \A i \in 1..n : /\ strides[i] >= 1 /\ dil[i] >= 1 /\ ins[i] >= 1 /\ ks[i] >= 1
+                     /\ opad[i] >= 0 /\ opad[i] < MaxI(strides[i], dil[i])
+                     /\ pads[i] >= 0 /\ pads[n + i] >= 0
+                     /\ strides[i] * (ins[i] - 1) + opad[i] + ((ks[i] - 1) * dil[i] + 1) - pads[i] - pads[n + i] >= 1
+OnnxConvTranspose(x, w, bias, strides, dil, group, pads, opad) ==
+  LET n == Rank(x) - 2 ins == Drop(x.shape, 2) ks == Drop(w.shape, 2)
+      cg == x.shape[2] \div group mg == w.shape[2]
+      kdims == <<cg>> \o ks
+      os == [i \in 1..n |-> strides[i] * (ins[i] - 1) + opad[i] + ((ks[i] - 1) * dil[i] + 1) - pads[i] - pads[n + i]]
+      F(idx) ==
+        LET mo == idx[2] g == mo \div mg m == mo % mg o == Drop(idx, 2)
+            G(acc, j) ==
+              LET ck == Unravel(j, kdims) c == g * cg + ck[1] kk == Drop(ck, 1)
+                  \* o = i*stride - pad_begin + k*dilation  =>  i = (o + pad_begin - k*dilation) / stride
+                  num == [i \in 1..n |-> o[i] + pads[i] - kk[i] * dil[i]]
+              IN IF \A i \in 1..n : num[i] >= 0 /\ num[i] % strides[i] = 0 /\ num[i] \div strides[i] < ins[i]
+                 THEN acc + At(x, <<idx[1], c>> \o [i \in 1..n |-> num[i] \div strides[i]]) * At(w, <<c, m>> \o kk)
+                 ELSE acc
+        IN FoldN(G, Prod(kdims), IF IsT(bias) THEN bias.data[mo + 1] ELSE 0)
+  IN FromFn(<<x.shape[1], mg * group>> \o os, x.dtype, F)
+
+\* MaxPool / AveragePool(X, kernel_shape, strides, pads, dilations, auto_pad,
+\* ceil_mode, count_include_pad).  With ceil_mode=1 only windows that start
+\* inside the input or the begin padding are defined the same way by every
+\* version of the documentation: cases where the ceil formula adds a window
+\* starting in the end padding are left undefined.  A window must contain at
+\* least one input element.  AveragePool is exact only where the window sum is
+\* divisible by the divisor.
+PoolOut(x, ks, strides, dil, pads, auto, ceil) ==
+  LET ins == Drop(x.shape, 2) IN ConvOutDims(ins, ks, strides, dil, ConvPads(auto, ins, ks, strides, dil, pads), ceil)
+\* input positions covered by the window of output position o
+PoolWindow(ins, ks, strides, dil, pb, o) ==
+  LET RECURSIVE W(_)
+      W(j) == IF j = Prod(ks) THEN <<>>
+              ELSE LET pos == WinPos(o, Unravel(j, ks), strides, dil, pb)
+                   IN (IF InBounds(pos, ins) THEN <<pos>> ELSE <<>>) \o W(j + 1)
+  IN W(0)
+DefPool(x, ks, strides, dil, pads, auto, ceil) ==
+  LET ins == Drop(x.shape, 2) n == Len(ins) IN
+  /\ Rank(x) >= 3 /\ DefWindow(ins, ks, strides, dil, pads, auto)
+  /\ LET pd == ConvPads(auto, ins, ks, strides, dil, pads)
+         os == ConvOutDims(ins, ks, strides, dil, pd, ceil) IN
+     /\ ceil => \A i \in 1..n : (os[i] - 1) * strides[i] < ins[i] + pd.b[i]
+     /\ \A i \in 1..n : pd.b[i] < (ks[i] - 1) * dil[i] + 1 /\ pd.e[i] < (ks[i] - 1) * dil[i] + 1
+     /\ \A k \in 1..Prod(os) : PoolWindow(ins, ks, strides, dil, pd.b, Unravel(k - 1, os)) # <<>>
+PoolGeneric(x, ks, strides, dil, pads, auto, ceil, Agg(_, _)) ==
+  LET ins == Drop(x.shape, 2)
+      pd == ConvPads(auto, ins, ks, strides, dil, pads)
+      pb == TLCEval(pd.b) pe == TLCEval(pd.e)
+      F(idx) == LET o == Drop(idx, 2)
+                    win == PoolWindow(ins, ks, strides, dil, pb, o)
+                    vals == [j \in 1..Len(win) |-> At(x, <<idx[1], idx[2]>> \o win[j])]
+                    \* number of window cells inside the PADDED input (count_include_pad divisor)
+                    padded == Cardinality({j \in 0..(Prod(ks) - 1) :
+                                LET pos == WinPos(o, Unravel(j, ks), strides, dil, pb)
+                                IN \A i \in 1..Len(pos) : pos[i] >= -pb[i] /\ pos[i] < ins[i] + pe[i]})
+                IN Agg(vals, padded)
+  IN FromFn(<<x.shape[1], x.shape[2]>> \o ConvOutDims(ins, ks, strides, dil, pd, ceil), x.dtype, F)
+SeqMax(v) == LET G(acc, j) == MaxI(acc, v[j + 2]) IN FoldN(G, Len(v) - 1, v[1])
+OnnxMaxPool(x, ks, strides, dil, pads, auto, ceil) ==
+  PoolGeneric(x, ks, strides, dil, pads, auto, ceil, LAMBDA vals, padded : SeqMax(vals))
+AvgDivisor(vals, padded, cip) == IF cip THEN padded ELSE Len(vals)
+\* With count_include_pad=1 and ceil_mode=1 a window may reach beyond the padded
+\* input; whether those cells count is not settled by the documentation: such
+\* cases are left undefined.
+DefAveragePool(x, ks, strides, dil, pads, auto, ceil, cip) ==
+  /\ DefPool(x, ks, strides, dil, pads, auto, ceil)
+  /\ (cip /\ ceil) =>
+       LET ins == Drop(x.shape, 2)
+           pd == ConvPads(auto, ins, ks, strides, dil, pads)
+           os == ConvOutDims(ins, ks, strides, dil, pd, ceil)
+       IN \A i \in 1..Len(ins) : (os[i] - 1) * strides[i] + (ks[i] - 1) * dil[i] + 1 <= ins[i] + pd.b[i] + pd.e[i]
+  /\ LET t == PoolGeneric(x, ks, strides, dil, pads, auto, ceil,
+                          LAMBDA vals, padded : SeqSum(vals) % AvgDivisor(vals, padded, cip))
+     IN \A k \in 1..Len(t.data) : t.data[k] = 0
+OnnxAveragePool(x, ks, strides, dil, pads, auto, ceil, cip) ==
+  PoolGeneric(x, ks, strides, dil, pads, auto, ceil,
+              LAMBDA vals, padded : TruncDiv(SeqSum(vals), AvgDivisor(vals, padded, cip)))
+\* GlobalMaxPool / GlobalAveragePool: over all spatial axes, keeping them as 1.
+DefGlobalPool(x) == Rank(x) >= 3 /\ \A i \in 3..Rank(x) : x.shape[i] >= 1
+SpatialAxes(x) == [i \in 1..(Rank(x) - 2) |-> i + 1]
+OnnxGlobalMaxPool(x) == OnnxReduce("ReduceMax", x, SpatialAxes(x), TRUE)
+DefGlobalAveragePool(x) == DefGlobalPool(x) /\ DefReduce("ReduceMean", x, SpatialAxes(x), TRUE)
+OnnxGlobalAveragePool(x) == OnnxReduce("ReduceMean", x, SpatialAxes(x), TRUE)
+
+---------------------------------------------------------------------------
+(* Resize, mode = nearest: pure index arithmetic in exact rationals.         *)
+\* A scale is a pair [n, d] = n/d > 0.  With `sizes` the scale of an axis is
+\* out/in; with `scales` it is the given value and out = floor(in * scale).
+\* rten (like any float implementation) evaluates the coordinate transform in
+\* f32: it is exact - and therefore comparable - when the scale is a power of
+\* two (and, for align_corners, when (in-1)/(out-1) is); other ratios are left
+\* undefined here.
+IsPow2Ratio(a, b) == a > 0 /\ b > 0 /\ \E k \in 0..10 : a = b * IPow(2, k) \/ b = a * IPow(2, k)
+CoordModes == {"half_pixel", "pytorch_half_pixel", "asymmetric", "align_corners"}
+NearestModes == {"round_prefer_floor", "round_prefer_ceil", "floor", "ceil"}
+\* original coordinate of output position xo as a rational [p, q], q > 0
+ResizeCoord(cm, xo, in, out, sc) ==
+  CASE cm = "half_pixel" -> [p |-> (2 * xo + 1) * sc.d - sc.n, q |-> 2 * sc.n]
+    [] cm = "pytorch_half_pixel" -> IF out > 1 THEN [p |-> (2 * xo + 1) * sc.d - sc.n, q |-> 2 * sc.n] ELSE [p |-> 0, q |-> 1]
+    [] cm = "asymmetric" -> [p |-> xo * sc.d, q |-> sc.n]
+    [] cm = "align_corners" -> IF out = 1 THEN [p |-> 0, q |-> 1] ELSE [p |-> xo * (in - 1), q |-> out - 1]
+NearestIndex(nm, c, in) ==
+  LET i == CASE nm = "floor" -> FloorDiv(c.p, c.q)
+             [] nm = "ceil" -> CeilDiv(c.p, c.q)
+             [] nm = "round_prefer_floor" -> CeilDiv(2 * c.p - c.q, 2 * c.q)      \* ceil(x - 1/2)
+             [] nm = "round_prefer_ceil" -> FloorDiv(2 * c.p + c.q, 2 * c.q)      \* floor(x + 1/2)
+  IN Clamp(i, 0, in - 1)
+DefResizeNearest(x, outs, scs, cm, nm) ==
+  /\ cm \in CoordModes /\ nm \in NearestModes
+  /\ Len(outs) = Rank(x) /\ Len(scs) = Rank(x)
+  /\ \A i \in 1..Rank(x) :
+       /\ x.shape[i] >= 1 /\ outs[i] >= 1 /\ IsPow2Ratio(scs[i].n, scs[i].d)
+       /\ cm = "align_corners" => (outs[i] = 1 \/ x.shape[i] = 1 \/ IsPow2Ratio(x.shape[i] - 1, outs[i] - 1))
+OnnxResizeNearest(x, outs, scs, cm, nm) ==
+  LET F(idx) == At(x, [i \in 1..Rank(x) |->
+                         NearestIndex(nm, ResizeCoord(cm, idx[i], x.shape[i], outs[i], scs[i]), x.shape[i])])
+  IN FromFn(outs, x.dtype, F)
+
+---------------------------------------------------------------------------
+(* More elementwise / layout operators.                                     *)
+\* PRelu(X, slope): slope unidirectionally broadcast to X; LeakyRelu(alpha).
+DefPRelu(x, sl) == sl.dtype = x.dtype /\ BroadcastableTo(sl.shape, x.shape)
+OnnxPRelu(x, sl) == LET F(idx) == IF At(x, idx) < 0 THEN At(x, idx) * BAt(sl, idx) ELSE At(x, idx) IN FromFn(x.shape, x.dtype, F)
+OnnxLeakyRelu(x, alpha) == MapT(LAMBDA v : IF v < 0 THEN alpha * v ELSE v, x, x.dtype)
+\* ReverseSequence(input, sequence_lens, batch_axis, time_axis).
+DefReverseSequence(x, lens, ba, ta) ==
+  /\ Rank(x) >= 2 /\ {ba, ta} = {0, 1} /\ IsIdx(lens) /\ lens.shape = <<x.shape[ba + 1]>>
+  /\ \A k \in 1..Len(lens.data) : lens.data[k] >= 0 /\ lens.data[k] <= x.shape[ta + 1]
+OnnxReverseSequence(x, lens, ba, ta) ==
+  LET F(idx) == LET n == lens.data[idx[ba + 1] + 1] t == idx[ta + 1]
+                IN At(x, IF t < n THEN SetAt(idx, ta + 1, n - 1 - t) ELSE idx)
+  IN FromFn(x.shape, x.dtype, F)
+\* DequantizeLinear(x, x_scale, x_zero_point?, axis): (x - zp) * scale, integer
+\* scales only; per-tensor (one element) or per-axis (1-D along `axis`).
+QParam(t, x, axis, idx) == IF NumEl(t) = 1 THEN t.data[1] ELSE t.data[idx[Norm(axis, Rank(x)) + 1] + 1]
+DefQParam(t, x, axis) ==
+  \/ NumEl(t) = 1 /\ Rank(t) <= 1
+  \/ Rank(t) = 1 /\ Rank(x) >= 1 /\ axis >= -Rank(x) /\ axis <= Rank(x) - 1 /\ t.shape = <<x.shape[Norm(axis, Rank(x)) + 1]>>
+DefDequantizeLinear(x, sc, zp, axis) ==
+  /\ x.dtype \in {"u8", "i8", "i32"} /\ sc.dtype = "f32" /\ DefQParam(sc, x, axis)
+  /\ IsT(zp) => (zp.dtype = x.dtype /\ zp.shape = sc.shape)
+OnnxDequantizeLinear(x, sc, zp, axis) ==
+  LET F(idx) == (At(x, idx) - (IF IsT(zp) THEN QParam(zp, x, axis, idx) ELSE 0)) * QParam(sc, x, axis, idx)
+  IN FromFn(x.shape, "f32", F)
+\* QuantizeLinear(x, y_scale, y_zero_point?, axis): saturate(round_half_even(x / scale) + zp),
+\* positive integer scales; output type = type of zero point (default uint8).
+RoundHalfEven(p, q) ==       \* q > 0
+  LET f == FloorDiv(p, q) rem2 == 2 * (p - f * q)
+  IN IF rem2 < q THEN f ELSE IF rem2 > q THEN f + 1 ELSE IF f % 2 = 0 THEN f ELSE f + 1
+DefQuantizeLinear(x, sc, zp, axis) ==
+  /\ x.dtype = "f32" /\ sc.dtype = "f32" /\ DefQParam(sc, x, axis)
+  /\ \A k \in 1..Len(sc.data) : sc.data[k] >= 1
+  /\ IsT(zp) => (zp.dtype \in {"u8", "i8"} /\ zp.shape = sc.shape)
+OnnxQuantizeLinear(x, sc, zp, axis) ==
+  LET dt == IF IsT(zp) THEN zp.dtype ELSE "u8"
+      lo == IF dt = "u8" THEN 0 ELSE -128
+      hi == IF dt = "u8" THEN 255 ELSE 127
+      F(idx) == Clamp(RoundHalfEven(At(x, idx), QParam(sc, x, axis, idx)) + (IF IsT(zp) THEN QParam(zp, x, axis, idx) ELSE 0), lo, hi)
+  IN FromFn(x.shape, dt, F)
+
+---------------------------------------------------------------------------
 (* Dispatcher.                                                              *)
 \* Operators whose (first) output is an ONNX bool tensor.  rten stores bool as
 \* i32; the weakest reading of "bool represented as i32" is C truthiness, so
@@ -720,5 +1016,86 @@ OnnxEval(op, attrs, ins) ==
     [] op = "DepthToSpace" -> IF ~Need(1) \/ ~AHas(attrs, "blocksize") THEN Undefined ELSE
          G(DefDepthToSpace(T(1), A("blocksize", 1), A("mode", "DCR")),
            OnnxDepthToSpace(T(1), A("blocksize", 1), A("mode", "DCR")))
+    [] op = "MatMul" -> IF ~Need(2) THEN Undefined ELSE
+         G(DefMatMul(T(1), T(2)) /\ T(1).dtype = T(2).dtype, OnnxMatMul(T(1), T(2)))
+    [] op = "Gemm" -> IF ~Need(2) THEN Undefined ELSE
+         LET ta == A("transA", 0) = 1 tb == A("transB", 0) = 1 IN
+         G(DefGemm(T(1), T(2), TOpt(3), ta, tb),
+           OnnxGemm(T(1), T(2), TOpt(3), A("alpha", 1), A("beta", 1), ta, tb))
+    [] op = "MatMulInteger" -> IF ~Need(2) THEN Undefined ELSE
+         G(DefMatMulInteger(T(1), T(2), TOpt(3), TOpt(4)), OnnxMatMulInteger(T(1), T(2), TOpt(3), TOpt(4)))
+    [] op \in {"Conv", "ConvInteger", "ConvTranspose"} -> IF ~Need(2) \/ Rank(T(1)) < 3 THEN Undefined ELSE
+         LET n == Rank(T(1)) - 2
+             strides == A("strides", Ones(n))
+             dil == A("dilations", Ones(n))
+             pads == A("pads", [i \in 1..(2 * n) |-> 0])
+             auto == A("auto_pad", "NOTSET")
+             grp == A("group", 1)
+             ksa == A("kernel_shape", <<>>)
+         IN (CASE op = "Conv" ->
+                   G(DefConv(T(1), T(2), TOpt(3), ksa, strides, dil, grp, pads, auto) /\ T(1).dtype = T(2).dtype,
+                     OnnxConv(T(1), T(2), TOpt(3), strides, dil, grp, pads, auto))
+              [] op = "ConvInteger" ->
+                   G(DefConvInteger(T(1), T(2), TOpt(3), TOpt(4), ksa, strides, dil, grp, pads, auto),
+                     OnnxConvInteger(T(1), T(2), TOpt(3), TOpt(4), strides, dil, grp, pads, auto))
+              [] op = "ConvTranspose" ->
+                   IF auto \notin {"NOTSET", "VALID"} \/ AHas(attrs, "output_shape") THEN Unmodelled ELSE
+                   LET opad == A("output_padding", [i \in 1..n |-> 0])
+                       pads2 == IF auto = "VALID" THEN [i \in 1..(2 * n) |-> 0] ELSE pads IN
+                   G(DefConvTranspose(T(1), T(2), TOpt(3), ksa, strides, dil, grp, pads2, opad) /\ T(1).dtype = T(2).dtype,
+                     OnnxConvTranspose(T(1), T(2), TOpt(3), strides, dil, grp, pads2, opad)))
+    [] op \in {"MaxPool", "AveragePool"} ->
+         IF ~Need(1) \/ Rank(T(1)) < 3 \/ ~AHas(attrs, "kernel_shape") THEN Undefined ELSE
+         IF A("storage_order", 0) # 0 THEN Unmodelled ELSE
+         LET n == Rank(T(1)) - 2
+             ks == A("kernel_shape", <<>>)
+             strides == A("strides", Ones(n))
+             dil == A("dilations", Ones(n))
+             pads == A("pads", [i \in 1..(2 * n) |-> 0])
+             auto == A("auto_pad", "NOTSET")
+             ceil == A("ceil_mode", 0) = 1
+         IN IF op = "MaxPool"
+            THEN G(DefPool(T(1), ks, strides, dil, pads, auto, ceil), OnnxMaxPool(T(1), ks, strides, dil, pads, auto, ceil))
+            ELSE LET cip == A("count_include_pad", 0) = 1 IN
+                 G(DefAveragePool(T(1), ks, strides, dil, pads, auto, ceil, cip),
+                   OnnxAveragePool(T(1), ks, strides, dil, pads, auto, ceil, cip))
+    [] op = "GlobalMaxPool" -> IF ~Need(1) THEN Undefined ELSE G(DefGlobalPool(T(1)), OnnxGlobalMaxPool(T(1)))
+    [] op = "GlobalAveragePool" -> IF ~Need(1) THEN Undefined ELSE
+         G(DefGlobalAveragePool(T(1)), OnnxGlobalAveragePool(T(1)))
+    [] op = "Resize" -> IF ~Need(1) THEN Undefined ELSE
+         IF A("mode", "nearest") # "nearest" \/ AHas(attrs, "axes") \/ A("antialias", 0) # 0
+            \/ A("keep_aspect_ratio_policy", "stretch") # "stretch" \/ Has(2) THEN Unmodelled ELSE
+         LET x == T(1) r == Rank(x)
+             cm == A("coordinate_transformation_mode", "half_pixel")
+             nm == A("nearest_mode", "round_prefer_floor")
+         IN IF cm \notin CoordModes \/ nm \notin NearestModes THEN Unmodelled
+            ELSE IF Has(3) = Has(4) THEN Undefined                      \* exactly one of scales / sizes
+            ELSE IF Has(4)
+            THEN (IF ~IsList(4) \/ Len(L(4)) # r THEN Undefined ELSE
+                  LET scs == [i \in 1..r |-> [n |-> L(4)[i], d |-> x.shape[i]]] IN
+                  G(DefResizeNearest(x, L(4), scs, cm, nm), OnnxResizeNearest(x, L(4), scs, cm, nm)))
+            ELSE (IF Len(ins[3].shape) # 1 \/ Len(L(3)) # r \/ ins[3].dtype # "f32" \/ ins[3].den < 1 THEN Undefined ELSE
+                  \* scales are logged as integers over the common denominator ins[3].den
+                  IF \E i \in 1..r : L(3)[i] < 1 THEN Undefined ELSE
+                  LET scs == [i \in 1..r |-> [n |-> L(3)[i], d |-> ins[3].den]]
+                      outs == [i \in 1..r |-> (x.shape[i] * L(3)[i]) \div ins[3].den]
+                  IN G(DefResizeNearest(x, outs, scs, cm, nm), OnnxResizeNearest(x, outs, scs, cm, nm)))
+    [] op = "CastLike" -> IF ~Need(2) THEN Undefined ELSE
+         G(\A k \in 1..Len(T(1).data) : InRange(T(2).dtype, T(1).data[k]), WithDType(T(1), T(2).dtype))
+    [] op = "Scatter" -> IF ~Need(3) THEN Undefined ELSE
+         G(DefScatterElements(T(1), T(2), T(3), A("axis", 0), "none"), OnnxScatterElements(T(1), T(2), T(3), A("axis", 0), "none"))
+    [] op \in {"Ceil", "Floor", "Round"} -> IF ~Need(1) THEN Undefined ELSE G(T(1).dtype = "f32", T(1))   \* integers are fixed points
+    [] op \in {"IsInf", "IsNaN"} -> IF ~Need(1) THEN Undefined ELSE
+         G(T(1).dtype = "f32", MapT(LAMBDA v : 0, T(1), "i32"))                   \* logged values are finite
+    [] op = "PRelu" -> IF ~Need(2) THEN Undefined ELSE G(DefPRelu(T(1), T(2)), OnnxPRelu(T(1), T(2)))
+    [] op = "LeakyRelu" -> IF ~Need(1) \/ ~AHas(attrs, "alpha") THEN Undefined ELSE
+         G(T(1).dtype = "f32", OnnxLeakyRelu(T(1), A("alpha", 0)))
+    [] op = "ReverseSequence" -> IF ~Need(2) THEN Undefined ELSE
+         G(DefReverseSequence(T(1), T(2), A("batch_axis", 1), A("time_axis", 0)),
+           OnnxReverseSequence(T(1), T(2), A("batch_axis", 1), A("time_axis", 0)))
+    [] op = "DequantizeLinear" -> IF ~Need(2) THEN Undefined ELSE
+         G(DefDequantizeLinear(T(1), T(2), TOpt(3), A("axis", 1)), OnnxDequantizeLinear(T(1), T(2), TOpt(3), A("axis", 1)))
+    [] op = "QuantizeLinear" -> IF ~Need(2) THEN Undefined ELSE
+         G(DefQuantizeLinear(T(1), T(2), TOpt(3), A("axis", 1)), OnnxQuantizeLinear(T(1), T(2), TOpt(3), A("axis", 1)))
     [] OTHER -> Unmodelled
 =============================================================================
